@@ -22,18 +22,18 @@ REQUIRED = ['keeps_direct_seats', 'house_grows_by_adj', 'house_grows_by_adj_of_f
             'level_is_least', 'meets_lowest_iff', 'level_least_enlargement', 'level_zero_outside_tier_witness',
             'level_terminates', 'level_terminates_of_no_tie', 'ha_tier_has_votes', 'd_hondt_unbounded',
             'sainte_lague_unbounded', 'level_final_is_proportional', 'level_cty_is_least',
-            'level_cty_direct_seat_ignored_witness', 'lrHareEval_fills', 'house_grows_by_adj_lr',
+            'level_cty_direct_seat_counted', 'level_cty_at_is_least', 'level_cty_default_is_least', 'lrHareEval_fills', 'house_grows_by_adj_lr',
             'level_least_enlargement_ha', 'level_least_enlargement_lr', 'multistage_final_is_proportional',
             'level_terminates_lr']
 REQUIRED_COUNTERS = ['overhang_present', 'no_overhang', 'party_outside_tier', 'party_without_votes',
                      'levelling_iterations_ge2', 'by_constituency', 'multistage_wrapped',
-                     'allow', 'level', 'd_hondt', 'sainte_lague', 'hare_lr', 'tie_in_baseline', 'multistage_depth2']
+                     'allow', 'level', 'd_hondt', 'sainte_lague', 'hare_lr', 'tie_in_baseline', 'multistage_depth2', 'default_overall', 'apportioned']
 RULE = ('second-vote dicts over 2-6 parties (tie-forcing small sets, zero-vote parties, up to 10^12, some Fractions); '
         'baseline house sizes 1..30; direct-seat maps with sum <= house size (none, below the share, skewed above it, '
         'random; parties with direct seats but no proportional seat; parties without a votes entry); proportional '
         "evaluator in {HighestAverages('d_hondt'), HighestAverages('sainte_lague'), LargestRemainder('hare')}; calculators "
-        'AllowOverhang, LevelOverhang (flat) and LevelOverhangByConstituency (2-3 constituencies with fixed apportionment '
-        '0..8, overall evaluator given), alone (overhang_calc) and inside AdjustedSeatCount (adjusted_eval; distributing '
+        'AllowOverhang, LevelOverhang (flat) and LevelOverhangByConstituency (2-3 constituencies; fixed apportionment '
+        '0..8 or an apportioning evaluator; overall evaluator given or the default), alone (overhang_calc) and inside AdjustedSeatCount (adjusted_eval; distributing '
         'evaluator = the same or another of the three, ByParty(overall, allocator) for the by-constituency variant), bare '
         'or as second stage of MultistageDistributor([direct-seat stage, AdjustedSeatCount]) with depth 1 / 2; levelling '
         'bounded by 200 evaluator calls on both sides. Thorough tier adds all vote vectors {0..3}^2 (n<=5) and {0..2}^3 '
@@ -51,8 +51,10 @@ NOT_VERIFIED = [
     'take no max_seats',
     'direct seats of parties outside the tier exceeding the house (n_seats < nonprop_drop) are outside the model '
     '(Unmodelled) and outside the quantifier (direct seats sum to at most the house size)',
-    'ByConstituency is modelled for a fixed per-constituency apportionment without preselector; ByParty for simple votes '
-    'with max_seats = {}; accepts_prev_gains (inspect.signature) is not modelled — both inner evaluators accept prev_gains',
+    'ByConstituency is modelled without preselector, for a fixed per-constituency apportionment or an apportioning '
+    'evaluator given an integer n_seats; ByParty for simple votes with max_seats = {}; the dispatch helpers '
+    '(accepts_seats / accepts_prev_gains / accepts_max_seats, inspect.signature) are not modelled — every inner evaluator '
+    'used here takes all three',
     'MultistageDistributor: first stage = an evaluator with a fixed outcome (as MockEvaluator in tests/real/test_real_mmp.py); '
     'depth 2 iterates a set of constituencies, the model uses list order and results are compared as sorted maps',
 ]
@@ -78,13 +80,15 @@ class _Capped:
     """transparent proxy around a real evaluator that bounds the number of calls (so that a levelling loop that
     does not terminate becomes an observable instead of a hang)"""
     def __init__(self, ev, cap):
-        self.ev, self.cap, self.calls = ev, cap, 0
+        # the attribute is called `evaluator` so that votelib's dispatch helpers (accepts_seats, accepts_prev_gains,
+        # accepts_max_seats) look through the generic signature to the wrapped evaluator
+        self.evaluator, self.cap, self.calls = ev, cap, 0
 
     def evaluate(self, *a, **k):
         self.calls += 1
         if self.calls > self.cap:
             raise FuelExhausted()
-        return self.ev.evaluate(*a, **k)
+        return self.evaluator.evaluate(*a, **k)
 
 
 class _Mock:
@@ -135,9 +139,14 @@ def _flat_calc(case, capped=True):
 def _cty_calc(case):
     import votelib.evaluate.core as vc
     ev = _ev(case['evaluator'])
-    app = {CNAMES.n(c): k for c, k in case['app']}
-    overall = _Capped(_ev(case['evaluator']), 1 + case['fuel']) if case.get('overall', 'given') == 'given' else None
-    return vc.LevelOverhangByConstituency(vc.ByConstituency(ev, apportioner=app), overall_evaluator=overall)
+    capp = case.get('capp', 'fixed')
+    apportioner = {CNAMES.n(c): k for c, k in case['app']} if capp == 'fixed' else _ev(capp)
+    cev = vc.ByConstituency(ev, apportioner=apportioner)
+    if case.get('overall', 'given') == 'given':
+        return vc.LevelOverhangByConstituency(cev, overall_evaluator=_Capped(_ev(case['evaluator']), 1 + case['fuel']))
+    # default overall evaluator = the constituency evaluator re-run and merged: one call for the constituency results,
+    # one for the first overall result, then the loop
+    return vc.LevelOverhangByConstituency(_Capped(cev, 2 + case['fuel']))
 
 
 def _enc_nested(res):
@@ -194,8 +203,6 @@ def impl(case):
 
 
 def model_line(case):
-    if case.get('overall') == 'none':
-        return None          # the documented default path crashes before anything is computed; not modelled
     return strip_case(case)
 
 
@@ -318,13 +325,27 @@ def _adj_clauses(case, adj, votes, direct):
     return out, info
 
 
+def _cty_results(case, cvotes, h):
+    """black box: proportional result of every constituency when the constituency evaluator is asked for h seats
+    (fixed apportionment: h is irrelevant; apportioned: the apportioner distributes h over the constituencies by
+    their vote totals, a constituency that is not an individual key of the apportionment gets no seats)"""
+    capp = case.get('capp', 'fixed')
+    if capp == 'fixed':
+        app = {CNAMES.n(c): k for c, k in case['app']}
+    else:
+        ev = _ev(capp)
+        ctot = {c: sum(dv.values()) for c, dv in cvotes.items()}
+        try:
+            app = call_with_timeout(lambda: ev.evaluate(ctot, h), 5)
+        except Exception as e:      # noqa
+            raise _Refused(err_name(e))
+    return {cty: (_bb(case['evaluator'], dv, app.get(cty, 0)) if app.get(cty, 0) != 0 else {}) for cty, dv in cvotes.items()}
+
+
 def _cty_expected(case):
     """by-constituency levelling, literal: floors summed over constituencies, least e with overall(n-drop+e) >= floors"""
     cvotes, cprev, n = _cvotes(case), _cprev(case), case['n']
-    app = {CNAMES.n(c): k for c, k in case['app']}
-    props = {}
-    for cty, dv in cvotes.items():
-        props[cty] = _bb(case['evaluator'], dv, app[cty]) if app[cty] != 0 else {}
+    props = _cty_results(case, cvotes, n)
     tier = []
     for r in props.values():
         for p in r:
@@ -351,12 +372,21 @@ def _cty_expected(case):
     for dv in cvotes.values():
         for p, v in dv.items():
             totals[p] = totals.get(p, 0) + v
+
+    def overall(h):
+        if case.get('overall', 'given') == 'given':
+            return _bb(case['evaluator'], totals, h)
+        merged = {}
+        for r in _cty_results(case, cvotes, h).values():
+            for p, k in r.items():
+                merged[p] = merged.get(p, 0) + k
+        return merged
     least = None
     for e in range(0, case['fuel'] + 1):
         h = n - drop + e
         if h < 0:
             continue
-        r = _bb(case['evaluator'], totals, h)
+        r = overall(h)
         if all(r.get(p, 0) >= m for p, m in floors.items()):
             least = e
             break
@@ -366,8 +396,8 @@ def _cty_expected(case):
 def _cty_adj_clauses(case, obs):
     """clauses on the adjustment reported by LevelOverhangByConstituency; returns (violations, expected | None)"""
     out = []
-    if isinstance(obs, dict) and case.get('overall') == 'none':
-        return [('default_overall_evaluator_crashes:' + str(obs.get('err')), 'overall_evaluator=None')], None
+    if obs == {'err': 'AttributeError'} and case.get('overall') == 'none':
+        return [('default_overall_evaluator_crashes:AttributeError', 'overall_evaluator=None')], None
     try:
         exp = _cty_expected(case)
     except _Refused as x:
@@ -603,7 +633,7 @@ def _flat_case(rng, op=None, kind=None, ev=None, vkind=None, dmode=None, n=None,
     return c
 
 
-def _cty_case(rng, ev=None, op=None, wrap=None):
+def _cty_case(rng, ev=None, op=None, wrap=None, overall=None):
     m = rng.randint(2, 5)
     nc = rng.randint(2, 3)
     ev = ev or rng.choice(EVALS)
@@ -621,9 +651,20 @@ def _cty_case(rng, ev=None, op=None, wrap=None):
     n = sum(k for _, k in app) + rng.choice([0, 0, 0, 1, 2])
     if sum(k for _, ps in cprev for _, k in ps) > n:
         n = sum(k for _, ps in cprev for _, k in ps)
+    overall = overall or ('none' if rng.random() < 0.2 else 'given')
+    # constituency evaluator: fixed apportionment dict, or an apportioning evaluator (always in most default-overall cases:
+    # with a fixed apportionment the default overall result does not depend on the house size)
+    capp = 'fixed'
+    if (overall == 'none' and rng.random() < 0.85) or (overall == 'given' and rng.random() < 0.2):
+        capp = rng.choice(['d_hondt', 'sainte_lague', ev])
     c = {'op': op or rng.choice(['overhang_calc', 'adjusted_eval']), 'kind': 'level_cty', 'evaluator': ev,
-         'overall': 'given', 'cvotes': cvotes, 'cprev': cprev, 'app': app, 'n': n, 'fuel': FUEL,
+         'overall': overall, 'capp': capp, 'cvotes': cvotes, 'cprev': cprev, 'app': app, 'n': n, 'fuel': FUEL,
          '_tags': ['by_constituency', ev]}
+    if overall == 'none':
+        c['op'] = 'overhang_calc'       # the distributing ByParty stage is specified for a nationwide overall evaluator
+        c['_tags'].append('default_overall')
+    if capp != 'fixed':
+        c['_tags'].append('apportioned')
     if c['op'] == 'adjusted_eval':
         c['final'] = ev
         # the allocator distributes a party's seats over the constituencies; with LargestRemainder it divides by zero on
@@ -697,7 +738,8 @@ def generate(rng, tier):
             cases.append(_flat_case(rng, op='adjusted_eval', ev=ev, wrap='multistage', dmode='skew'))
             cases.append(_flat_case(rng, ev=ev, vkind='small', n=rng.choice([1, 2, 3, 5, 7])))          # ties in the baseline
             cases.append(_cty_case(rng, ev=ev))
-            cases.append(_cty_case(rng, ev=ev, op='adjusted_eval', wrap='multistage'))
+            cases.append(_cty_case(rng, ev=ev, op='adjusted_eval', wrap='multistage', overall='given'))
+            cases.append(_cty_case(rng, ev=ev, overall='none'))
     if tier == 'thorough':
         # small-scope exhaustive: all vote vectors over {0..3}^2 (n <= 5) and {0..2}^3 (n <= 3), all direct maps with
         # entries <= 2 and sum <= n over the parties and one party without votes, 3 evaluators, allow and level
@@ -751,9 +793,10 @@ def describe(case):
     evs = {'d_hondt': "HighestAverages('d_hondt')", 'sainte_lague': "HighestAverages('sainte_lague')",
            'hare_lr': "LargestRemainder('hare')"}
     if case.get('kind') == 'level_cty':
-        app = {CNAMES.n(c): k for c, k in case['app']}
+        app = {CNAMES.n(c): k for c, k in case['app']} if case.get('capp', 'fixed') == 'fixed' else evs[case['capp']]
+        app = repr(app) if isinstance(app, dict) else app
         ov = evs[case['evaluator']] if case.get('overall', 'given') == 'given' else 'None'
-        calc = (f"LevelOverhangByConstituency(ByConstituency({evs[case['evaluator']]}, apportioner={app!r}), "
+        calc = (f"LevelOverhangByConstituency(ByConstituency({evs[case['evaluator']]}, apportioner={app}), "
                 f"overall_evaluator={ov})")
         if case['op'] == 'overhang_calc':
             return f"{calc}.calculate({_cvotes(case)!r}, {case['n']}, prev_gains={_cprev(case)!r})"
